@@ -156,6 +156,8 @@ func slotAlts() []slotAlt {
 		{label: "sql.NullBool", typ: "sql.NullBool"},
 		{label: "sql.NullFloat64", typ: "sql.NullFloat64"},
 		{label: "OptID", typ: "OptID", declA: "type OptID struct {\n\tValid bool\n\tID Count\n}\n", local: true},
+		// a struct with an SQL guard: an unexported field that only the SQL targets know
+		{label: "Guarded", typ: "Guarded", declA: "type Guarded struct {\n\tLabel string\n\tguard Color `gomacro-sql-guard:\"#[Color.Red]\"`\n\tN     int\n}\n", local: true},
 		{label: "OptTags", typ: "OptTags", declA: "type OptTags struct {\n\tValid bool\n\tL     []string\n}\n", local: true},
 		{label: "OptID-reversed", typ: "OptID", declA: "type OptID struct {\n\tID Count\n\tValid bool\n}\n", local: true},
 		{label: "OptDate", typ: "OptDate", declA: "type OptDate struct {\n\tD Date\n\tValid bool\n}\n", declB: "type Date time.Time\n" + dateCompanions, local: true},
@@ -236,6 +238,7 @@ var slotTags = []string{
 	"`gomacro-opaque:\"dart,typescript\"`",
 	"`gomacro-data:\"ignore\"`",
 	"`json:\"2fa\"`",
+	"`json:\"1e3\"`",
 	"`json:\"slot_x\" gomacro:\"ignore\"`",
 	"`gomacro:\"ignore\" json:\",omitempty\"`",
 }
@@ -249,7 +252,7 @@ func Types(c explore.Chooser) *prog.Program { return TypesWith(c, TypesOpt{}) }
 
 func TypesWith(c explore.Chooser, opt TypesOpt) *prog.Program {
 	s := &S{C: c}
-	rootName := s.Pick("root.pkgname", "models", "pk", "m")
+	rootName := s.Pick("root.pkgname", "models", "pk", "m", "updates")
 	subName := s.Pick("sub.pkgname", "subpkg", "db", "x", "models")
 	rootPath := prog.Base() + "/" + rootName
 	subPath := rootPath + "/" + subName
@@ -272,7 +275,7 @@ func TypesWith(c explore.Chooser, opt TypesOpt) *prog.Program {
 		rename["Red"] = v
 	}
 
-	enumForm := s.Pick("enum.form", "iota-uint8", "explicit-int-unexported-middle", "string", "alias-member", "unexported-first", "other-file", "negative", "bool-backed", "float-backed", "dup-values")
+	enumForm := s.Pick("enum.form", "iota-uint8", "explicit-int-unexported-middle", "string", "alias-member", "unexported-first", "other-file", "negative", "bool-backed", "float-backed", "dup-values", "flagged-default-first", "flagged-default-middle")
 	unionForm := s.Pick("union.members", "2-structs", "1-struct", "named-int-member", "named-slice-member", "named-map-member", "pointer-receiver-non-member", "extra-marker-method", "enum-member", "member-in-other-file", "member-by-embedding")
 	second := s.Pick("union.second", "none", "shares-member-different-prefix", "shares-member-same-prefix", "same-name-in-sub", "disjoint")
 	container := s.Pick("union.container", "named-slice", "named-map", "named-array", "none", "named-map-enum-key", "named-map-named-key", "two-named-slices", "two-named-maps", "named-array-5")
@@ -354,6 +357,11 @@ func TypesWith(c explore.Chooser, opt TypesOpt) *prog.Program {
 		enumDecl = "type Color bool\n\nconst (\n\tRed   Color = true // red color\n\tGreen Color = false\n)\n\nconst Blue = Red\n"
 	case "float-backed":
 		enumDecl = "type Color float64\n\nconst (\n\tRed   Color = 0.5 // red color\n\tGreen Color = 1\n\tBlue  Color = 2.25\n)\n"
+	case "flagged-default-first":
+		// a typed default opted out of the enum, whose name sorts before every member
+		enumDecl = "type Color uint8\n\nconst (\n\tRed   Color = iota // red color\n\tGreen              // green color\n\tBlue\n)\n\nconst AColor Color = Green // gomacro:no-enum\n"
+	case "flagged-default-middle":
+		enumDecl = "type Color uint8\n\nconst (\n\tRed   Color = iota // red color\n\tGreen              // green color\n\tBlue\n)\n\nconst Fallback Color = Green // gomacro:no-enum\n"
 	case "dup-values":
 		enumDecl = "type Color int\n\nconst (\n\tRed   Color = 0 // red color\n\tGreen Color = 0\n\tBlue  Color = 1\n)\n"
 	}
